@@ -187,7 +187,7 @@ func init() {
 		const (
 			perSetter = 8    // sets per setting goroutine and round
 			fillKeys  = 6    // roots per round that only the node knows
-			stale     = 6000 // untracked old entries put in before every clean
+			stale     = 15000 // untracked old entries put in before every clean
 		)
 		// key numbering: round*1000 + class*100 + i
 		key := func(round, class, i int) uint64 { return uint64(round*1000 + class*100 + i) }
@@ -247,8 +247,13 @@ func init() {
 
 			// the others start when the clean is about to lock (or has returned already)
 			started := make(chan struct{})
+			var startedFlag atomic.Bool // the three setting goroutines spin on it: no wake-up latency
 			var once sync.Once
-			release := func() { once.Do(func() { close(started) }) }
+			release := func() { once.Do(func() { startedFlag.Store(true); close(started) }) }
+			spin := func() {
+				for !startedFlag.Load() {
+				}
+			}
 			ct.onMinSlot.Store(&release)
 
 			recs := make([]*c17linRecorder, 9)
@@ -270,7 +275,7 @@ func init() {
 			})
 			// the block event subscription
 			run(recs[1], func(rec *c17linRecorder) {
-				<-started
+				spin()
 				for i := 0; i < perSetter; i++ {
 					k, s := key(r, clsEvent, i), currentSlot+uint64(r)
 					rec.set(k, s, func() {
@@ -283,7 +288,7 @@ func init() {
 			for g, cls := range []int{clsDirectA, clsDirectB} {
 				cls := cls
 				run(recs[2+g], func(rec *c17linRecorder) {
-					<-started
+					spin()
 					for i := 0; i < perSetter; i++ {
 						k, s := key(r, cls, i), currentSlot+uint64(r)
 						if cls == clsDirectB && i%4 == 3 {
